@@ -683,6 +683,43 @@ func (se *specEnv) evalCall(n *SCall) (specVal, error) {
 	case "typeis":
 		// typeis(x, "pkg.Type") for interface values: dynamic type test by registered name
 		return specVal{}, fmt.Errorf("typeis not supported")
+	case "contains":
+		as, err := args()
+		if err != nil {
+			return specVal{}, err
+		}
+		return specVal{t: App(SBool, "str.contains", as[0].t, as[1].t)}, nil
+	case "indexOf":
+		as, err := args()
+		if err != nil {
+			return specVal{}, err
+		}
+		return specVal{t: App(SInt, "str.indexof", as[0].t, as[1].t, IntLit(0))}, nil
+	case "substr":
+		// substr(s, from, to) = s[from:to]
+		as, err := args()
+		if err != nil {
+			return specVal{}, err
+		}
+		return specVal{t: App(SString, "str.substr", as[0].t, as[1].t, App(SInt, "-", as[2].t, as[1].t))}, nil
+	case "atoi", "atoiOk", "pd", "pdOk", "allDigits":
+		as, err := args()
+		if err != nil {
+			return specVal{}, err
+		}
+		e.declareStringSpecs()
+		switch n.Fn {
+		case "atoi":
+			return specVal{t: App(SInt, "atoi_val", as[0].t)}, nil
+		case "atoiOk":
+			return specVal{t: And(App(SBool, "atoi_ok", as[0].t), App(SBool, "<=", IntLitS("-9223372036854775808"), App(SInt, "atoi_val", as[0].t)), App(SBool, "<=", App(SInt, "atoi_val", as[0].t), IntLitS("9223372036854775807")))}, nil
+		case "pd":
+			return specVal{t: App(SInt, "pd_val", as[0].t)}, nil
+		case "pdOk":
+			return specVal{t: And(App(SBool, "pd_syntax", as[0].t), Not(App(SBool, "pd_overflow", as[0].t)))}, nil
+		default:
+			return specVal{t: T(fmt.Sprintf("(str.in_re %s (re.+ (re.range \"0\" \"9\")))", as[0].t.S), SBool)}, nil
+		}
 	case "closed":
 		as, err := args()
 		if err != nil {
